@@ -683,6 +683,10 @@ func (s *Server) handlePQClientRequestHidden(b []byte) (int, *HandshakeState, er
 	// init kem
 	hs.kem = new(kemState)
 
+	// The client certificate is judged by the server's client-verification
+	// policy, exactly as on the discoverable path.
+	hs.certVerify = s.config.ClientVerify
+
 	n, err := s.readPQClientRequestHidden(hs, b)
 
 	if err != nil {
